@@ -499,6 +499,125 @@ def updOneProg (prog : List (Bool × AOp)) (s : SimState) (g : Game) (name : Nam
     | .ok a' => .ok { g with agents := setAgent name a' g.agents }
 
 
+/-! ### `setup_reward_sharing` as the program its source is (Gen/Reward.lean `setupSharingProgram`, extracted on every run) -/
+
+/-- a statement under `if isinstance(comp, SharedReward):` in the loop over an agent's components -/
+inductive SOp
+  /-- `graph[name].add(comp.config.agent_name)` -/
+  | addArc
+  /-- `comp.callback = lambda agent_name: self.agents[agent_name].reward_function.current_reward` -/
+  | setCallback
+deriving DecidableEq, Repr
+
+/-- a statement after the loops -/
+inductive TOp
+  /-- `if graph_has_cycle(graph): raise RuntimeError(…)` -/
+  | raiseIfCycle
+  /-- `self._reward_calculation_order = topological_sort(graph)` -/
+  | assignOrder
+deriving DecidableEq, Repr
+
+/-- `graph = {}`; `for name, agent in self.agents.items(): graph[name] = set(); for comp, weight in …reward_components:
+if isinstance(comp, SharedReward): <perShared>`; then `<tail>` — the statements in source order -/
+structure SetupProg where
+  perShared : List SOp
+  tail : List TOp
+deriving Repr
+
+/-- what one shared component named `a` adds to the agent's set, statement by statement -/
+def addsOf (a : Name) : List SOp → List Name
+  | [] => []
+  | .addArc :: r => a :: addsOf a r
+  | .setCallback :: r => addsOf a r
+
+/-- the names added to `graph[name]`, in the order of the `add` calls -/
+def insertedNames (ops : List SOp) : List (Comp × Val) → List Name
+  | [] => []
+  | (.shared a, _) :: rest => addsOf a ops ++ insertedNames ops rest
+  | _ :: rest => insertedNames ops rest
+
+/-- the graph the translated loops build (`σ` = iteration order of the Python `set` built by these `add` calls) -/
+def progGraph (σ : List Name → List Name) (prog : SetupProg) (as : List (Name × Agent)) : Graph Name :=
+  as.map (fun p => (p.1, σ (insertedNames prog.perShared p.2.comps)))
+
+/-- the statements after the loops: `none` = `_reward_calculation_order` not assigned so far -/
+def runTail (g : Graph Name) : List TOp → Option (List Name) → Except Err (Option (List Name))
+  | [], o => .ok o
+  | .raiseIfCycle :: r, o => if hasCycle g then .error .cycle else runTail g r o
+  | .assignOrder :: r, _ => runTail g r (some (topoSort g))
+
+/-- a translated `setup_reward_sharing`: the evaluation order it leaves in `_reward_calculation_order`, or what it raises
+(`attributeError`: the order is never assigned — the first `update_agents` would fail) -/
+def setupProg (σ : List Name → List Name) (prog : SetupProg) (as : List (Name × Agent)) : Except Err (List Name) :=
+  match runTail (progGraph σ prog as) prog.tail none with
+  | .error e => .error e
+  | .ok none => .error .attributeError
+  | .ok (some o) => .ok o
+
+/-! ### The three step pipelines (`PrimaiteGame.step`, `PrimaiteGymEnv.step`, `PrimaiteRayMARLEnv.step`) as the sequences of calls
+their sources are (Gen/Reward.lean `stepPipelines`, extracted on every run): WHEN the rewards are computed relative to the
+simulator's tick, on WHICH snapshot of the state, and WHAT the environment returns as the reward. -/
+
+/-- one top-level statement of a `step` method, as far as rewards are concerned -/
+inductive POp
+  /-- the RL agents' chosen actions are stored -/
+  | storeAction
+  /-- `pre_timestep()` -/
+  | preTimestep
+  /-- `apply_agent_actions()` -/
+  | applyActions
+  /-- `advance_timestep()`: the simulator's tick -/
+  | advance
+  /-- `x = get_sim_state()`: a snapshot (`describe_state()`) of the simulation as it is now -/
+  | getState (x : String)
+  /-- `update_agents(x)`: every agent's reward is computed on snapshot `x` -/
+  | updateAgents (x : String)
+  /-- `for agent in self.agents.values(): agent.update_observation(state=x)` (observations only) -/
+  | updateObservations (x : String)
+  /-- the value the method returns as reward(s) is read now: `current_reward` (`false`) or `total_reward` (`true`) -/
+  | readReward (total : Bool)
+  /-- a statement that touches neither the simulation nor the rewards (observations, truncation, info, logging) -/
+  | other
+deriving DecidableEq, Repr
+
+/-- what matters of a run of a pipeline: how many ticks happened, which snapshot each variable holds (tick count when taken), on
+which snapshots `update_agents` ran (in order), and when the returned reward was read (kind, number of `update_agents` done) -/
+structure PSt where
+  ticks : Nat := 0
+  vars : List (String × Nat) := []
+  updates : List Nat := []
+  reads : List (Bool × Nat) := []
+deriving DecidableEq, Repr
+
+/-- run a pipeline; `(true, op)` = `op` stands under `if self.step_counter == 0:`; `none` = an unbound snapshot variable -/
+def runPipe (first : Bool) : List (Bool × POp) → PSt → Option PSt
+  | [], st => some st
+  | (guarded, op) :: rest, st =>
+    if guarded && !first then runPipe first rest st
+    else
+      match op with
+      | .advance => runPipe first rest { st with ticks := st.ticks + 1 }
+      | .getState x => runPipe first rest { st with vars := (x, st.ticks) :: st.vars }
+      | .updateAgents x =>
+        match st.vars.lookup x with
+        | some v => runPipe first rest { st with updates := st.updates ++ [v] }
+        | none => none
+      | .updateObservations x =>
+        match st.vars.lookup x with
+        | some _ => runPipe first rest st
+        | none => none
+      | .readReward t => runPipe first rest { st with reads := st.reads ++ [(t, st.updates.length)] }
+      | _ => runPipe first rest st
+
+/-- the property's "evaluated on the post-step state … reward returned by env.step": in the first step of an episode and in every
+later one, exactly one tick; `update_agents` runs exactly once, on a snapshot taken AFTER that tick; and (environments) the returned
+reward is `current_reward`, read once, AFTER `update_agents` -/
+def pipeOK (returnsReward : Bool) (p : List (Bool × POp)) : Bool :=
+  [true, false].all fun first =>
+    match runPipe first p {} with
+    | some st => st.ticks == 1 && st.updates == [1] && (st.reads == if returnsReward then [(false, 1)] else [])
+    | none => false
+
 /-- one `PrimaiteGame.step` / `PrimaiteGymEnv.step`, reward-relevant part, exceptions included -/
 def gameStepE (g : Game) (items : Name → Item) (s : SimState) : Except Err Game :=
   updateAgentsE s (advance (act items g))
